@@ -83,3 +83,74 @@ Proof.
   apply Hbody. destruct (mem r written) eqn:Ew; [|reflexivity].
   rewrite forallb_forall in Hw. apply mem_In in Ew. specialize (Hw r Ew). rewrite E in Hw. discriminate.
 Qed.
+
+(* ---- Windows: the xmm save slots ---- *)
+Lemma pairs_eqb_eq : forall a b, pairs_eqb a b = true -> a = b.
+Proof.
+  induction a as [|[x1 y1] a IH]; intros [|[x2 y2] b] H; cbn in H; try discriminate; [reflexivity|].
+  apply andb_true_iff in H. destruct H as [H H3]. apply andb_true_iff in H. destruct H as [H1 H2].
+  apply N.eqb_eq in H1, H2. subst. f_equal. apply IH. exact H3.
+Qed.
+
+Lemma restores_other : forall svs (xr : xregs) m r, ~ In r (map fst svs) -> do_restores xr svs m r = xr r.
+Proof.
+  induction svs as [|[r0 off] tl IH]; intros xr m r Hn; [reflexivity|]. cbn [do_restores map fst] in *.
+  rewrite IH by (intros H; apply Hn; right; exact H).
+  destruct (r =? r0) eqn:E; [|reflexivity]. apply N.eqb_eq in E. subst. exfalso. apply Hn. left. reflexivity.
+Qed.
+
+Lemma restores_get : forall svs (xr : xregs) m r off, NoDup (map fst svs) -> In (r, off) svs ->
+  do_restores xr svs m r = m off.
+Proof.
+  induction svs as [|[r0 o0] tl IH]; intros xr m r off Hnd Hin; [destruct Hin|].
+  cbn [map fst] in Hnd. inversion Hnd as [|? ? Hnotin Hnd']; subst. cbn [do_restores].
+  destruct Hin as [E|Hin].
+  - injection E as -> ->. rewrite restores_other by exact Hnotin. rewrite N.eqb_refl. reflexivity.
+  - apply IH; assumption.
+Qed.
+
+Lemma saves_other : forall svs (xr : xregs) m o, ~ In o (map snd svs) -> do_saves xr svs m o = m o.
+Proof.
+  induction svs as [|[r0 off] tl IH]; intros xr m o Hn; [reflexivity|]. cbn [do_saves map snd] in *.
+  rewrite IH by (intros H; apply Hn; right; exact H).
+  destruct (o =? off) eqn:E; [|reflexivity]. apply N.eqb_eq in E. subst. exfalso. apply Hn. left. reflexivity.
+Qed.
+
+Lemma saves_get : forall svs (xr : xregs) m r off, NoDup (map snd svs) -> In (r, off) svs ->
+  do_saves xr svs m off = xr r.
+Proof.
+  induction svs as [|[r0 o0] tl IH]; intros xr m r off Hnd Hin; [destruct Hin|].
+  cbn [map snd] in Hnd. inversion Hnd as [|? ? Hnotin Hnd']; subst. cbn [do_saves].
+  destruct Hin as [E|Hin].
+  - injection E as -> ->. rewrite saves_other by exact Hnotin. rewrite N.eqb_refl. reflexivity.
+  - apply IH; assumption.
+Qed.
+
+Lemma slots_disjoint_NoDup : forall offs, slots_disjoint offs = true -> NoDup offs.
+Proof.
+  induction offs as [|o tl IH]; intros H; [constructor|]. cbn in H. apply andb_true_iff in H. destruct H as [H1 H2].
+  constructor; [|apply IH; exact H2]. intros Hin. rewrite forallb_forall in H1. specialize (H1 o Hin).
+  unfold disjoint16 in H1. lia.
+Qed.
+
+(* saves in the prologue, a body that leaves the save slots alone and writes only `written` xmm registers, restores
+   from the same slots in the epilogue: every xmm register holds the caller's value again *)
+Theorem xmm_preserved : forall saves restores written (x0 x1 : xregs) (m0 m1 : slots),
+  pairs_eqb saves restores = true -> nodup (map fst saves) = true -> slots_disjoint (map snd saves) = true ->
+  forallb (fun x => mem x (map fst saves)) written = true ->
+  (forall off, In off (map snd saves) -> m1 off = do_saves x0 saves m0 off) ->   (* the body does not store into a save slot *)
+  (forall r, mem r written = false -> x1 r = x0 r) ->                            (* the body writes only `written` *)
+  forall r, do_restores x1 restores m1 r = x0 r.
+Proof.
+  intros saves restores written x0 x1 m0 m1 He Hn Hd Hw Hm Hx r.
+  apply pairs_eqb_eq in He. subst restores.
+  apply nodup_NoDup in Hn. apply slots_disjoint_NoDup in Hd.
+  destruct (in_dec N.eq_dec r (map fst saves)) as [Hin|Hnin].
+  - apply in_map_iff in Hin. destruct Hin as ([r' off] & E & Hin). cbn in E. subst r'.
+    rewrite (restores_get saves x1 m1 r off Hn Hin).
+    rewrite Hm by (apply in_map_iff; exists (r, off); split; [reflexivity|exact Hin]).
+    apply saves_get; assumption.
+  - rewrite restores_other by exact Hnin. apply Hx.
+    destruct (mem r written) eqn:E; [|reflexivity].
+    rewrite forallb_forall in Hw. apply mem_In in E. specialize (Hw r E). apply mem_In in Hw. contradiction.
+Qed.
